@@ -298,6 +298,11 @@ func (env *Env) buildReflect(idx int, fs FuncSpec, opts []am.Arg) (*am.Func, err
 		} else {
 			for _, l := range fs.Out {
 				t := env.tok()
+				if fs.NilOut && l.Type == "PE" { // a nil pointer is a value of a pointer type
+					res = append(res, reflect.Zero(TypeOf("PE")))
+					ex.Outs = append(ex.Outs, -1)
+					continue
+				}
 				res = append(res, MkValue(l.Type, t))
 				ex.Outs = append(ex.Outs, t)
 			}
